@@ -53,6 +53,10 @@ func checkAPIKey(apikey string) (isValid, isRoot bool) {
 		logs.Warn.Println("failed to decode.base64 appid ", err)
 		return
 	}
+	if len(data) != apikeyLength {
+		// CR and LF are skipped by the decoder: the key may be shorter than its encoded length promised.
+		return
+	}
 	if data[0] != 1 {
 		logs.Warn.Println("unknown appid signature algorithm ", data[0])
 		return
